@@ -343,9 +343,11 @@ async fn step(w: &mut World, sc: &[Call], i: usize, c: &Call) -> Result<bool, Mi
             let r = w.handles[*h].get_child_version(parent).await;
             let exp = w.plain.iter().find(|v| v.1 == parent).cloned();
             w.st.lock().unwrap().tamper = if tamper == Tamper::DropResponseOnce { w.st.lock().unwrap().tamper } else { Tamper::None };
-            let tampered = !matches!(tamper, Tamper::None) && exp.is_some();
+            // a lost response to a GET may be answered by an error or by asking again: both are fine; tampered data must be refused
+            let lost = tamper == Tamper::DropResponseOnce;
+            let tampered = !matches!(tamper, Tamper::None | Tamper::DropResponseOnce) && exp.is_some();
             match (r, exp) {
-                (Err(_), _) if tampered => Ok(true),
+                (Err(_), _) if tampered || lost => Ok(true),
                 (Ok(GetVersionResult::Version { version_id, history_segment, .. }), Some(_)) if tampered => Err(mm(at, format!("Version {version_id}, {} bytes, from a response that was {tamper:?}", history_segment.len()), "an error: modified, truncated, re-labelled or foreign data is rejected rather than returned")),
                 (Ok(GetVersionResult::NoSuchVersion), None) => Ok(true),
                 (Ok(GetVersionResult::Version { version_id, parent_version_id, history_segment }), Some(e)) => {
@@ -367,9 +369,7 @@ async fn step(w: &mut World, sc: &[Call], i: usize, c: &Call) -> Result<bool, Mi
             let data = payload(*k);
             let r = w.handles[*h].add_snapshot(v, data.clone()).await;
             if tamper == Tamper::DropResponseOnce {
-                if r.is_ok() {
-                    return Err(mm(at, "Ok although the response was lost".into(), "an error"));
-                }
+                // storing a snapshot again is harmless: an error or a second request are both fine
             } else if let Err(e) = r {
                 return Err(mm(at, format!("Err({e})"), "Ok"));
             }
